@@ -131,6 +131,18 @@ UNSUPPORTED = [
     ("async_def", ["async def co():", "    return 1"]),
     ("return_outside", ["return 5"]),
     ("continue_outside", ["continue"]),
+    # expression statements that are not a call at the top but carry one (an effect) inside
+    ("boolop_call", ["i0 > 0 and led.on()"]),
+    ("boolop_or_call", ["i0 > 5 or led.toggle()"]),
+    ("ifexp_calls", ["led.on() if i0 > 0 else led.off()"]),
+    ("tuple_calls", ["led.on(), sleep(5)"]),
+    ("listcomp_calls", ["[led.toggle() for k in range(2)]"]),
+    ("not_call", ["not led.toggle()"]),
+    ("compare_call", ["mon.write(1) == 1"]),
+    ("binop_call", ["led.get_brightness() + 1"]),
+    ("call_chain", ["str(i0).strip()"]),
+    ("subscript_call", ["items[abs(i0)]"]),
+    ("paren_call", ["(led.on())"]),
 ]
 NO_MEANING = {"import_other", "from_other", "global", "docstring", "print", "pass", "ellipsis", "constant_expr"}
 NO_MEANING_REASONS = {"import", "target", "target-inline", "print"}
